@@ -180,6 +180,10 @@ pub fn replay_other(run: &'static Run, kind: &str, case: &J) -> Option<i32> {
             crate::ucichk::replay_position(run, case);
             Some(0)
         }
+        "blackbox" => {
+            crate::bbchk::replay(run, case);
+            Some(0)
+        }
         "session" => {
             crate::searchchk::replay_session(run, case);
             Some(0)
@@ -190,6 +194,11 @@ pub fn replay_other(run: &'static Run, kind: &str, case: &J) -> Option<i32> {
             if let Err(e) = crate::picker::replay(&ctx, case) {
                 println!("replay failed: {e}");
             }
+            Some(0)
+        }
+        "virtual-clock" => {
+            println!("re-running the virtual-clock family (a few seconds)");
+            timealloc::virtual_clock_runs(run);
             Some(0)
         }
         "clock" | "movetime" => {
@@ -457,7 +466,10 @@ fn c19(run: &Run) -> i32 {
 }
 
 fn c14(run: &Run) -> i32 {
-    let (s, t) = timealloc::run(run);
+    let (mut s, mut t) = timealloc::run(run);
+    let (a, b) = timealloc::virtual_clock_runs(run);
+    s += a;
+    t += b;
     for v in 0..3 {
         run.distinct_outcome(format!("o{v}"));
     }
@@ -493,7 +505,12 @@ fn c10(run: &Run) -> i32 {
 fn c04_c08(run: &Run, prop: &str) -> i32 {
     use crate::searchchk::{self, Focus};
     let focus = if prop == "C04" { Focus::C04 } else { Focus::C08 };
-    let (s, t) = searchchk::c04_c08(run, focus);
+    let (mut s, mut t) = searchchk::c04_c08(run, focus);
+    if prop == "C04" {
+        let (a, b) = crate::bbchk::c04(run);
+        s += a;
+        t += b;
+    }
     run.require("searches", 1000);
     run.require("info_lines", 1000);
     if prop == "C08" {
@@ -526,7 +543,10 @@ fn c09(run: &Run) -> i32 {
 }
 
 fn c12(run: &'static Run) -> i32 {
-    let (s, t) = crate::ucichk::c12(run);
+    let (mut s, mut t) = crate::ucichk::c12(run);
+    let (a, b) = crate::bbchk::c12(run);
+    s += a;
+    t += b;
     for i in 0..3 {
         run.distinct_outcome(format!("family{i}"));
     }
@@ -537,7 +557,10 @@ fn c12(run: &'static Run) -> i32 {
 }
 
 fn c13(run: &'static Run) -> i32 {
-    let (s, t) = crate::ucichk::c13(run);
+    let (mut s, mut t) = crate::ucichk::c13(run);
+    let (a, b) = crate::bbchk::c13(run);
+    s += a;
+    t += b;
     for i in 0..3 {
         run.distinct_outcome(format!("family{i}"));
     }
@@ -546,7 +569,10 @@ fn c13(run: &'static Run) -> i32 {
 }
 
 fn c17(run: &Run) -> i32 {
-    let (s, t) = crate::ucichk::c17(run);
+    let (mut s, mut t) = crate::ucichk::c17(run);
+    let (a, b) = crate::bbchk::c17(run);
+    s += a;
+    t += b;
     for i in 0..3 {
         run.distinct_outcome(format!("family{i}"));
     }
